@@ -40,7 +40,7 @@ Definition orc_interp_F (carrs : fenv) (kerns : list (Z * Z)) tbl (widths params
 Definition chk_opaque_interp (L : linop) (carrs : fenv) (kerns : list (Z * Z)) tbl (widths params : wpenv)
            (xin : list CF) (esh : list Z) (expect : list CF) : bool :=
   wf L && proven_node_interp L && interp_env_ok (mk_wp widths) (mk_wp params) L && zlist_eqb (oshape_of L) esh &&
-  all2 closeCF
+  close_arr
     (tabulate (oshape_of L) (orc_interp_F carrs kerns tbl widths params L (cfin (ishape_of L) xin))) expect.
 
 (* the same leaf against its serialised adjoint: the term of A.H is [adj L] *)
@@ -51,7 +51,7 @@ Definition chk_opaque_interp_adj (L LH : linop) : bool := linop_eqb (adj L) LH &
 Definition chk_apply_interp (T : linop) (arrs : list (Z * (list Z * list CF))) (scals : list (Z * CF))
            (carrs : fenv) (kerns : list (Z * Z)) tbl (widths params : wpenv) (xin expect : list CF) : bool :=
   wf T &&
-  all2 closeCF
+  close_arr
     (tabulate (oshape_of T)
        (den (mk_arr CFOps arrs) (mk_scal CFOps scals) (orc_interp_F carrs kerns tbl widths params) retab T
             (cfin (ishape_of T) xin))) expect.
